@@ -86,7 +86,11 @@ signal_impl::clear()
   if (!during_signal_emission)
   {
     deferred_ = saved_deferred;
-    slots_.clear();
+    // Take the slots out of slots_ before they are deleted. The destructor of a
+    // functor may use this signal, and std::list::clear() does not keep the list
+    // in a usable state while it deletes the elements.
+    slot_list old_slots;
+    old_slots.swap(slots_);
   }
 }
 
